@@ -6,3 +6,4 @@ RULE = "operations: ufunc; " + fam_raops.RULE
 def run(R, tier, rng):
     fam_raops.run_family(R, tier, rng, set("ufunc".split()))
     fam_ra2.run_c04(R, tier, rng)
+    fam_ra2.both_variants(lambda R_, t_, r_: fam_ra2.run_sequences(R_, t_, r_, 'ufunc'))(R, tier, rng)
